@@ -50,10 +50,34 @@ import (
 // oracle (written from the statement)
 // ---------------------------------------------------------------------------
 
+// c12Sample is one returned sample. The histogram object is kept and decoded into the reference
+// model only when the oracle needs it (most results carry no NotCounterReset mark at all).
 type c12Sample struct {
-	T int64
-	M *histmodel.H
+	T     int64
+	Hint  histogram.CounterResetHint
+	Stale bool
+	h     *histogram.Histogram
+	fh    *histogram.FloatHistogram
+	m     *histmodel.H
 }
+
+func (s *c12Sample) M() *histmodel.H {
+	if s.m == nil {
+		if s.h != nil {
+			s.m = histmodel.FromInt(s.h)
+		} else {
+			s.m = histmodel.FromFloat(s.fh)
+		}
+	}
+	return s.m
+}
+
+// c12FromModel wraps a model histogram as a returned sample (self-test only).
+func c12FromModel(t int64, m *histmodel.H) c12Sample {
+	return c12Sample{T: t, Hint: m.Hint, Stale: m.Stale, m: m}
+}
+
+const c12StaleBits = 0x7ff0000000000002
 
 // c12Sound checks one marked sample against its predecessor; "" when the marking is sound.
 func c12Sound(cur, prev *histmodel.H) (what, msg string) {
@@ -105,8 +129,15 @@ func c12Sound(cur, prev *histmodel.H) (what, msg string) {
 // querier (nil when res is itself unrestricted). It returns the first unsound marking and the
 // number of NotCounterReset markings examined.
 func c12Check(res, full []c12Sample) (what, msg string, marked int) {
-	for i, s := range res {
-		if s.M.Stale || s.M.Hint == histogram.GaugeType || s.M.Hint != histogram.NotCounterReset {
+	what, msg, marked, _ = c12CheckAt(res, full)
+	return what, msg, marked
+}
+
+// c12CheckAt is c12Check that also reports the index (in res) of the first unsound marking.
+func c12CheckAt(res, full []c12Sample) (what, msg string, marked, at int) {
+	for i := range res {
+		s := &res[i]
+		if s.Stale || s.Hint == histogram.GaugeType || s.Hint != histogram.NotCounterReset {
 			continue
 		}
 		marked++
@@ -123,28 +154,46 @@ func c12Check(res, full []c12Sample) (what, msg string, marked int) {
 		}
 		if prev == nil {
 			if what == "" {
-				what, msg = "no-preceding-sample", fmt.Sprintf("sample at t=%d (%s) is marked NotCounterReset but nothing precedes it", s.T, s.M)
+				what, msg, at = "no-preceding-sample", fmt.Sprintf("sample at t=%d (%s) is marked NotCounterReset but nothing precedes it", s.T, s.M()), i
 			}
 			continue
 		}
-		if w, m := c12Sound(s.M, prev.M); w != "" && what == "" {
-			what, msg = w, fmt.Sprintf("sample at t=%d is marked NotCounterReset but %s; preceding (t=%d) %s, marked %s", s.T, m, prev.T, prev.M, s.M)
+		if w, m := c12Sound(s.M(), prev.M()); w != "" && what == "" {
+			what, msg, at = w, fmt.Sprintf("sample at t=%d is marked NotCounterReset but %s; preceding (t=%d) %s, marked %s", s.T, m, prev.T, prev.M(), s.M()), i
 		}
 	}
-	return what, msg, marked
+	return what, msg, marked, at
+}
+
+// c12KnownRangeStart is the precondition of the known finding
+// "range-start-mark-ignores-intervening-sample": the unsound marking sits on the FIRST sample of
+// a range-restricted result, and the unrestricted result of the same querier does NOT mark that
+// sample (there the merge saw a sample of another chunk/store in between and withheld the mark).
+// The restricted read only sees the chunk that holds the sample and reports the mark the chunk
+// computed against its own previous sample, which lies outside the range.
+func c12KnownRangeStart(res, full []c12Sample, at int) bool {
+	if at != 0 || full == nil {
+		return false
+	}
+	for _, f := range full {
+		if f.T == res[0].T {
+			return f.Hint != histogram.NotCounterReset
+		}
+	}
+	return false
 }
 
 func c12Hints(res []c12Sample) string {
 	var sb strings.Builder
 	for _, s := range res {
 		switch {
-		case s.M.Stale:
+		case s.Stale:
 			sb.WriteByte('s')
-		case s.M.Hint == histogram.NotCounterReset:
+		case s.Hint == histogram.NotCounterReset:
 			sb.WriteByte('N')
-		case s.M.Hint == histogram.CounterReset:
+		case s.Hint == histogram.CounterReset:
 			sb.WriteByte('R')
-		case s.M.Hint == histogram.GaugeType:
+		case s.Hint == histogram.GaugeType:
 			sb.WriteByte('G')
 		default:
 			sb.WriteByte('u')
@@ -166,10 +215,10 @@ func c12Drain(it chunkenc.Iterator, first chunkenc.ValueType, asFloat bool) ([]c
 		switch {
 		case vt == chunkenc.ValHistogram && !asFloat:
 			t, h := it.AtHistogram(nil)
-			out = append(out, c12Sample{t, histmodel.FromInt(h)})
+			out = append(out, c12Sample{T: t, Hint: h.CounterResetHint, Stale: math.Float64bits(h.Sum) == c12StaleBits, h: h})
 		case vt == chunkenc.ValHistogram || vt == chunkenc.ValFloatHistogram:
 			t, fh := it.AtFloatHistogram(nil)
-			out = append(out, c12Sample{t, histmodel.FromFloat(fh)})
+			out = append(out, c12Sample{T: t, Hint: fh.CounterResetHint, Stale: math.Float64bits(fh.Sum) == c12StaleBits, fh: fh})
 		default:
 			return nil, fmt.Errorf("float sample at %d", it.AtT())
 		}
@@ -269,26 +318,40 @@ func c12SelfTest(t *testing.T) {
 	mark := func(m *histmodel.H) *histmodel.H { m.Hint = histogram.NotCounterReset; return m }
 	two, grownS, s1, stale := get("e02-s0-two/"), get("e03-s0-grown/"), get("e08-s1/"), get("e29-stale/")
 	// sound: e02 -> e03 (every bucket grew)
-	if w, _, n := c12Check([]c12Sample{{1, two}, {2, mark(grownS.Copy())}}, nil); w != "" || n != 1 {
+	S := c12FromModel
+	if w, _, n := c12Check([]c12Sample{S(1, two), S(2, mark(grownS.Copy()))}, nil); w != "" || n != 1 {
 		t.Fatalf("self-test: oracle rejects a sound marking: %s", w)
 	}
 	for name, res := range map[string][]c12Sample{
-		"no-preceding-sample":      {{1, mark(two.Copy())}},
-		"count-decreased":          {{1, grownS}, {2, mark(two.Copy())}},
-		"layout-differs":           {{1, two}, {2, mark(s1.Copy())}},
-		"preceded-by-stale-marker": {{1, stale}, {2, mark(two.Copy())}},
+		"no-preceding-sample":      {S(1, mark(two.Copy()))},
+		"count-decreased":          {S(1, grownS), S(2, mark(two.Copy()))},
+		"layout-differs":           {S(1, two), S(2, mark(s1.Copy()))},
+		"preceded-by-stale-marker": {S(1, stale), S(2, mark(two.Copy()))},
 	} {
 		if w, _, _ := c12Check(res, nil); w != name {
 			t.Fatalf("self-test: oracle answered %q for the wrong marking %q", w, name)
 		}
 	}
 	// restricted read: predecessor comes from the unrestricted result
-	full := []c12Sample{{1, grownS}, {2, two}}
-	if w, _, _ := c12Check([]c12Sample{{2, mark(two.Copy())}}, full); w != "count-decreased" {
+	full := []c12Sample{S(1, grownS), S(2, two)}
+	bad := []c12Sample{S(2, mark(two.Copy()))}
+	w, _, _, at := c12CheckAt(bad, full)
+	if w != "count-decreased" {
 		t.Fatalf("self-test: restricted read not checked against the unrestricted predecessor: %q", w)
 	}
-	if w, _, _ := c12Check([]c12Sample{{2, mark(grownS.Copy())}}, []c12Sample{{1, two}, {2, grownS}}); w != "" {
+	if !c12KnownRangeStart(bad, full, at) || c12KnownRangeStart(bad, []c12Sample{S(1, grownS), S(2, mark(two.Copy()))}, at) || c12KnownRangeStart(bad, full, 1) {
+		t.Fatal("self-test: known-finding precondition is not narrow")
+	}
+	if w, _, _ := c12Check([]c12Sample{S(2, mark(grownS.Copy()))}, []c12Sample{S(1, two), S(2, grownS)}); w != "" {
 		t.Fatalf("self-test: sound restricted read rejected: %q", w)
+	}
+	// lazily decoded samples behave like model-built ones
+	gi := histalpha.Atoms(s)[2] // e03-s0-grown/L0/int
+	h, _ := gi.Fresh()
+	h.CounterResetHint = histogram.NotCounterReset
+	lazy := c12Sample{T: 2, Hint: h.CounterResetHint, h: h}
+	if w, _, _ := c12Check([]c12Sample{S(1, two), lazy}, nil); w != "" {
+		t.Fatalf("self-test: lazily decoded sample rejected: %q", w)
 	}
 }
 
@@ -784,12 +847,15 @@ func (b *c12dBatch) stage(db *DB, stage string) bool {
 			}
 			for k := range b.items {
 				b.st.queries.Add(1)
-				what, msg, marked := c12Check(res[k], full[k])
+				what, msg, marked, at := c12CheckAt(res[k], full[k])
 				if marked > 0 {
 					b.mark[k] = true
 					b.st.marked.Add(int64(marked))
 				}
-				if what != "" {
+				if what != "" && c12KnownRangeStart(res[k], full[k], at) {
+					// soft: known finding, exploration continues
+					b.viol(k, "range-start-mark-ignores-intervening-sample", fmt.Sprintf("stage %s range [%d,%d]: %s (%s) [hints %s, unrestricted %s]", stage, c12T(i), c12T(j), msg, what, c12Hints(res[k]), c12Hints(full[k])))
+				} else if what != "" {
 					b.viol(k, "db-"+stage+"-range-"+what, fmt.Sprintf("range [%d,%d]: %s [hints %s, unrestricted %s]", c12T(i), c12T(j), msg, c12Hints(res[k]), c12Hints(full[k])))
 				}
 			}
@@ -1025,7 +1091,7 @@ func TestVerifC12d(t *testing.T) {
 			{"small-int", 4, 2, []int64{32}},
 		}
 	}
-	const batchSize = 4096
+	const batchSize = 16384
 	type job struct {
 		ph       int
 		from, to int64 // range of (sequence, split) case indices
@@ -1045,6 +1111,9 @@ func TestVerifC12d(t *testing.T) {
 	phaseDone := make([]atomic.Int64, len(phases))
 	var done atomic.Int64
 	r.ParallelN(int64(len(jobs)), func(i int64) {
+		if r.Expired() { // ParallelN consults the deadline only every 64 items; batches are big
+			return
+		}
 		j := jobs[i]
 		ph := phases[j.ph]
 		al := alphas[ph.alpha]
@@ -1080,7 +1149,7 @@ func TestVerifC12d(t *testing.T) {
 	r.Count("not_counter_reset_markings_checked", int(st.marked.Load()))
 	r.Count("results_checked", int(st.queries.Load()))
 	r.Set("phases_db", desc)
-	r.Set("rule_db", "part d: every sequence of counter atoms of one representation is one series (timestamps 1000,1100,...) of a real tsdb.DB (up to 4096 series per DB); every split assigns each sample to the head or to one of two backfilled blocks (written with BlockWriter, moved into the DB directory, reloadBlocks) and every append order of the head samples (a sample older than an earlier-appended one lands in the out-of-order head). Reads: DB.Querier full range, DB.Querier for every proper sub-range [t_i,t_j], DB.ChunkQuerier full range; at five stages: live, after CompactOOOHead, after Compact (vertical merge of the overlapping blocks), after CompactHead, after a final Compact. distinct_nontrivial counts the enumerated (sequence, split, configuration) cases (distinct by construction) in which at least one returned sample was marked NotCounterReset.")
+	r.Set("rule_db", "part d: every sequence of counter atoms of one representation is one series (timestamps 1000,1100,...) of a real tsdb.DB (up to 16384 series per DB); every split assigns each sample to the head or to one of two backfilled blocks (written with BlockWriter, moved into the DB directory, reloadBlocks) and every append order of the head samples (a sample older than an earlier-appended one lands in the out-of-order head). Reads: DB.Querier full range, DB.Querier for every proper sub-range [t_i,t_j], DB.ChunkQuerier full range; at five stages: live, after CompactOOOHead, after Compact (vertical merge of the overlapping blocks), after CompactHead, after a final Compact. distinct_nontrivial counts the enumerated (sequence, split, configuration) cases (distinct by construction) in which at least one returned sample was marked NotCounterReset.")
 	r.Set("rule", "see rule_db (part d) and rule_merge (part m)")
 	r.Assume("C12 presupposes complete results (C01/C11): a series whose full-range result misses samples is reported as db-*-sample-count and not examined further")
 	if !r.Expired() && (st.marked.Load() == 0 || len(st.hintsSeen.m) < 2) {
